@@ -215,6 +215,8 @@ def r3_seed_plumbing(ctx):
                    "`%s` reaches an ambient source (%s): the stream replayed from schedule.seed would differ from the recorded one whenever that source differs" % (mb.nkey, amb[0]),
                    loc=mb.loc())
     ctx.floor("C01.R3", "DataSource methods examined", nds, 6)
+    from rules.c10 import reseed_returns_installed      # the seed recorded in the Schedule is the seed the generator restarted from
+    reseed_returns_installed(ctx, "C01.R3")
 
 
 def r4_replay_cursor(ctx):
